@@ -55,7 +55,11 @@ func c11ChallengeShapes(self *authHostCfg, otherRealm, otherHost string) map[str
 		"basic+bearer-lines": {`Basic realm="registry"`, good},
 		"unknown-scheme":     {`Negotiate abcdef`},
 		"unknown+bearer":     {`Negotiate abcdef`, good},
-		"escapes":            {fmt.Sprintf(`Bearer realm="https://%s/to\"ken",service="s\\vc",scope="repository:x:pull"`, self.realmHost())},
+		// well-formed challenges of schemes the transport does not speak: nobody asked for Basic or Bearer
+		"digest-only":    {`Digest realm="registry", nonce="abc", qop="auth"`},
+		"negotiate+ntlm": {`Negotiate`, `NTLM`},
+		"digest+basic":   {`Digest realm="registry", nonce="abc"`, `Basic realm="registry"`},
+		"escapes":        {fmt.Sprintf(`Bearer realm="https://%s/to\"ken",service="s\\vc",scope="repository:x:pull"`, self.realmHost())},
 		// quoted-pairs that a Go-literal unquoter would read differently: \x2e is the two octets "x2e" minus
 		// nothing - i.e. 'x','2','e' - not a dot; \056 likewise; the realm's host is spelled with them
 		"escapes-not-go-literals": {fmt.Sprintf(`Bearer realm="https://%s\x2eelsewhere.example/token",service="svc",scope="repository:x:pull"`, self.realmHost())},
